@@ -270,7 +270,16 @@ def controlflow(rng, underflow_p=0.0, symbolic_p=0.0, big_stack_p=0.0, far_p=0.0
         elif kind == "zero":
             a.emit(("push", 0, 1))
         elif kind == "symbolic":
-            a.emit(rng.choice([("push", 0, 1), 4, 36]), "CALLDATALOAD")
+            if rng.random() < 0.5:
+                a.emit(rng.choice([("push", 0, 1), 4, 36]), "CALLDATALOAD")
+            else:
+                # an internal function pointer kept in storage: the only typing evidence for that slot is the jump
+                # target expression itself
+                a.emit(rng.choice([("push", 0, 1), 1, 0x33]), "SLOAD")
+                if rng.random() < 0.7:
+                    a.emit(rng.choice([[0xff, "AND"], [0xffff, "AND"], [("push", 0xffffffff, 4), "AND"],
+                                       [0x40, "SHR", ("push", 0xffffffffffffffff, 8), "AND"]]))
+                feats.add("target:symbolic-from-storage")
         elif kind == "computed-valid":
             c = rng.randint(1, 9)
             a.push_expr(lambda L, n=name, c=c: L[n] - c, a.label_width)
